@@ -142,6 +142,26 @@ def run(ctx):
         ('CGNEQSolver', lambda: solver.CGNEQSolver(max_iter=5), lambda o, p: o.compute(p), tall),
         ('CGNEQSolver[prec]', lambda: solver.CGNEQSolver(max_iter=4, preconditioner_rank=1, seed=2), lambda o, p: o.compute(p), tall[:3]),
     ]
+    # constructors that take seed=: with a seed in the configuration (0 included) two fresh objects built in different states of the global
+    # generator, and called straight away, return the same bits
+    seeded = [
+        ('RandomizedSketchProjectPseudoinverse', lambda sd: solver.RandomizedSketchProjectPseudoinverse(block_size=2, max_iter=4, seed=sd), tall[:2] + wide[:1]),
+        ('HybridRSPNewtonSchulz', lambda sd: solver.HybridRSPNewtonSchulz(r=2, p=2, T=2, max_iter=3, seed=sd), tall[:2]),
+        ('CGNEQSolver[prec=2]', lambda sd: solver.CGNEQSolver(max_iter=4, preconditioner_rank=2, seed=sd), tall[:3]),
+        ('CGNEQSolver[prec=3]', lambda sd: solver.CGNEQSolver(max_iter=3, preconditioner_rank=3, seed=sd), [t for t in tall if t.shape[1] >= 3][:2]),
+    ]
+    for name, mk1, pool in seeded:
+        for sd in (0, 1, 7, 2 ** 31 - 1):
+            for i, p in enumerate(pool):
+                outs = []
+                for g in (111, 222):
+                    np.random.seed(g); np.random.standard_normal(g % 7)
+                    try:
+                        o = mk1(sd)
+                        with contextlib.redirect_stdout(io.StringIO()): outs.append(digest(o.compute(p)[0]))
+                    except Exception as e: outs.append(repr(e)[:80])
+                if outs[0] != outs[1]: viol(f'C14:{name}:seed-ignored:seed={sd}', f'two fresh {name}(seed={sd}) objects built in different states of the global generator disagree', {'problem': i, 'seed': sd})
+                ctx.count(('seeded', name, sd, i), True)
     def call(o, f, p, seed=1234):
         np.random.seed(seed)                   # value = function of (configuration, arguments, global RNG state at entry)
         with contextlib.redirect_stdout(io.StringIO()): return f(o, p)
